@@ -15,6 +15,14 @@ class ContractError(Exception):
     """The sidecar contract no longer binds to the code (anchor missing, name gone) -> exit 2."""
 
 
+class RaiseSignal(Exception):
+    """A callee whose contract says it raises (always): turned into a `raise` outcome of the current statement."""
+
+    def __init__(self, cls, args=()):
+        Exception.__init__(self, cls)
+        self.cls, self.args_ = cls, list(args)
+
+
 class PathEnd(Exception):
     """Abort the current path (assumed false)."""
 
